@@ -40,7 +40,7 @@ CHECKS = {
              ref='DESIGN.md section 2 C16'),
  'C05': dict(tech='compiler sanitizers (gcc ASan+UBSan, fatal, one process per input) + hook step counters as logical clock over grammar-aware mutants, pathological shapes and exhaustive short parameter strings',
              text='Exploration: conforming exchange and working-session files, token/byte mutants, stretching to 10^5, truncation, fixed pathological shapes and all parameter strings '
-                  'up to length 2 (quick) / 3 (thorough) per attribute kind are read and written by the sanitizer-built library; any report, signal or step-budget overrun is a violation.',
+                  'up to length 2 (quick) / 3 (thorough) per attribute kind are read and written by the sanitizer-built library; any report, signal, step-budget overrun or super-linear CPU growth (size N vs 4N per pathological family) is a violation.',
              ref='DESIGN.md section 2 C05', note='red-zone sanitizers miss intra-object and non-adjacent overflows; termination is decided on instrumented loops only'),
  'C13': dict(tech='linear-history reference-model monitor (ordered list + dict) over operation scripts executed by a harness on the real InstMgr, plus in-code invariant hook H2 and ASan+UBSan',
              text='Exploration, exhaustive for the bounded part: all operation sequences of length <= 4 (quick) / 5 (thorough) over a 12-symbol alphabet, owning and non-owning managers, '
@@ -116,7 +116,7 @@ def main():
                         source_commits=hook_commits, add_only=True),
              engines=[dict(name='vf', path='/verif/check', serves_properties=sorted(CHECKS), kind_free_text='Python drivers + C++ harnesses: workload generators, sanitizer runner, reference-model oracles, hook event readers')],
              checks=checks, not_applicable=na,
-             notes='Runtime monitoring and sanitizers only. Exit 0 held / 1 VIOLATION / 2 INCONCLUSIVE. known_findings.json lists open and fixed findings.')
+             notes='Runtime monitoring and sanitizers only. Exit 0 held / 1 VIOLATION / 2 INCONCLUSIVE. known_findings.json and known_findings.d/Cxx.json list open and fixed findings (fixed entries name the repairing commit and suppress nothing).')
     json.dump(m, open(os.path.join(V, 'MANIFEST.json'), 'w'), indent=1)
     try:
         import jsonschema
